@@ -104,7 +104,7 @@ def run(prog, rep):
 
     # ---------------------------------------------------------------- R20.7 a truncated text stream ends in a result, not in an endless loop
     from rules import encoded_reader
-    encoded_reader.check(prog, rep, ids={'R13.7': 'R20.7', 'R13.8': 'R20.8'})
+    encoded_reader.check(prog, rep, ids={'R13.7': 'R20.7', 'R13.8': 'R20.8', 'R13.12': 'R20.9'})
 
     # ---------------------------------------------------------------- R20.2 thrown types
     rep.rule('R20.2', 'every throw operand type derives from std::exception; bare "throw;" only inside a handler', floor=60)
